@@ -72,7 +72,7 @@ func (l *controlChar) Execute(c *x509.Certificate) *lint.LintResult {
 							return &lint.LintResult{Status: lint.Warn}
 						}
 					} else if text.Bytes[i]&0x20 == 0 {
-						if text.Bytes[i] == 0xc2 && text.Bytes[i+1] >= 0x80 && text.Bytes[i+1] <= 0x9f {
+						if text.Bytes[i] == 0xc2 && i+1 < len(text.Bytes) && text.Bytes[i+1] >= 0x80 && text.Bytes[i+1] <= 0x9f {
 							return &lint.LintResult{Status: lint.Warn}
 						}
 						i += 1
